@@ -1,0 +1,13 @@
+//go:build !verif
+// +build !verif
+
+// Package verifhook holds instrumentation points used by the external
+// verification harness. Without the "verif" build tag every function here is
+// an empty, inlinable stub.
+package verifhook
+
+const Enabled = false
+
+func Yield(site string)                              {}
+func Emit(kind string, a uint64, b uint64, s string) {}
+func SymbolTags() bool                               { return false }
